@@ -87,12 +87,14 @@ def build_jobs(tier, rep):
         jobs.append((cfgs[k % len(cfgs)], "render", d + "\n\n[r]: /u \"t<\"\n"))
     # every inline-fragment document: one representative per distinct tag structure
     sj = [(cfgs[(0, 2, 5)[k % 3]], "render", d) for k, d in enumerate(l2)]
+    ld = gen.docs("LD", tier, rep, wrapname="WrapD")
+    sj += [(cfgs[(0, 5)[k % 2]], "render", d) for k, d in enumerate(ld)]
     sk = C.pmap(skeleton_job, sj, chunk=2000)
     seen = {}
     for j, x in zip(sj, sk):
         seen.setdefault((j[0], x), j)
     jobs += list(seen.values())
-    rep.cov["bounds_skeletons"] = {"L2_rendered": len(sj), "distinct_tag_structures": len(seen)}
+    rep.cov["bounds_skeletons"] = {"L2_and_LD_rendered": len(sj), "LD_delimiter_dense": len(ld), "distinct_tag_structures": len(seen)}
     rep.cov["bounds"] = {"LM_placed": len(lm), "L1": len(l1), "L2": len(l2), "configs_html_off": len(cfgs),
                          "executed": len(jobs)}
     rep.cov["exhaustive"] = False
